@@ -567,46 +567,57 @@ Definition frame_buffer_check (limit : Z) (f : rframe) (blen : Z) : fbres :=
 
 (* receive_data: the new bytes are appended to the buffer; frames are taken from its head one by
    one; a frame the buffer rejects stays there.  The frame-size limit in force is the acknowledged
-   MAX_FRAME_SIZE at the moment each frame is taken (an ACK updates the buffer's limit at once). *)
+   MAX_FRAME_SIZE at the moment each frame is taken (an ACK updates the buffer's limit at once).
+   No handler reads or writes the byte buffer, so the frames still to come are threaded as an argument
+   and written back to c_inbuf when the call returns. *)
+
+(* the except clauses of receive_data *)
+Definition recv_except (c1 : conn) (res1 : res (list event)) : conn * res (list event) :=
+  match res1 with
+  | Ok evs => (c1, Ok evs)
+  | Err e code sid rst =>
+      if is_protocol_error e then
+        let '(c2, res2) := terminate_connection code c1 in
+        match res2 with
+        | Ok _ => (c2, Err e code sid rst)
+        | Err e2 a b d => (c2, Err e2 a b d)
+        | Crash p => (c2, Crash p)
+        end
+      else (c1, Err e code sid rst)
+  | Crash ForeignError =>
+      (* InvalidPaddingError *)
+      let '(c2, res2) := terminate_connection EC_PROTOCOL_ERROR c1 in
+      match res2 with
+      | Ok _ => (c2, perr)
+      | Err e2 a b d => (c2, Err e2 a b d)
+      | Crash p => (c2, Crash p)
+      end
+  | Crash p => (c1, Crash p)
+  end.
+
+(* -> final state, events or the exception, frames left in the buffer *)
+Fixpoint recv_core (fs : list (rframe * Z)) (acc : list event) (c : conn) : conn * res (list event) * list (rframe * Z) :=
+  match fs with
+  | [] => (c, Ok acc, [])
+  | (f, blen) :: rest =>
+      match frame_buffer_check (c_max_in_frame c) f blen with
+      | FBReject r =>
+          let '(c1, res1) := (dispatch r ;;; ret []) c in
+          match res1 with
+          | Ok evs => recv_core rest (acc ++ evs) c1
+          | _ => let '(c2, r2) := recv_except c1 res1 in (c2, r2, (f, blen) :: rest)
+          end
+      | FBYield =>
+          let '(c1, res1) := receive_frame f c in
+          match res1 with
+          | Ok evs => recv_core rest (acc ++ evs) c1
+          | _ => let '(c2, r2) := recv_except c1 res1 in (c2, r2, rest)
+          end
+      end
+  end.
+
 Definition api_receive (fs : list (rframe * Z)) : CM (list event) :=
-  modify (fun c => cset_inbuf c (c_inbuf c ++ fs)) ;;;
-  c0 <- get ;;
-  (fix loop (fuel : nat) (acc : list event) : CM (list event) :=
-     match fuel with
-     | O => ret acc
-     | S fuel' =>
-         fun c =>
-         match c_inbuf c with
-         | [] => (c, Ok acc)
-         | (f, blen) :: rest =>
-           let '(c1, res1) :=
-             match frame_buffer_check (c_max_in_frame c) f blen with
-             | FBReject r => (dispatch r ;;; ret []) c
-             | FBYield => receive_frame f (cset_inbuf c rest)
-             end in
-           match res1 with
-           | Ok evs => loop fuel' (acc ++ evs) c1
-           | Err e code sid rst =>
-               if is_protocol_error e then
-                 let '(c2, res2) := terminate_connection code c1 in
-                 match res2 with
-                 | Ok _ => (c2, Err e code sid rst)
-                 | Err e2 a b d => (c2, Err e2 a b d)
-                 | Crash p => (c2, Crash p)
-                 end
-               else (c1, Err e code sid rst)
-           | Crash ForeignError =>
-               (* InvalidPaddingError *)
-               let '(c2, res2) := terminate_connection EC_PROTOCOL_ERROR c1 in
-               match res2 with
-               | Ok _ => (c2, perr)
-               | Err e2 a b d => (c2, Err e2 a b d)
-               | Crash p => (c2, Crash p)
-               end
-           | Crash p => (c1, Crash p)
-           end
-         end
-     end) (length (c_inbuf c0)) [].
+  fun c => let '(c', r, rem) := recv_core (c_inbuf c ++ fs) [] c in (cset_inbuf c' rem, r).
 
 (* initiate_upgrade_connection; [hdr]: the settings carried by the HTTP2-Settings value (servers) *)
 Definition api_initiate_upgrade (hdr : option (list (Z * Z))) : CM (list (Z * Z)) :=
